@@ -223,6 +223,35 @@ func main() {
 		os.Exit(cmdInspect(os.Args[1], os.Args[2:]))
 	case "baseline":
 		os.Exit(cmdBaseline(os.Args[2:]))
+	case "harness":
+		// govc harness <prop>: run the replay harnesses of a property
+		var defs []harnessDef
+		loadJSON(filepath.Join(verifDir, "replay", "index.json"), &defs)
+		rc := 0
+		for _, d := range defs {
+			if len(os.Args) > 2 && d.Property != os.Args[2] {
+				continue
+			}
+			out, fails := runHarness(d)
+			fmt.Println(tail(out, 3000))
+			if len(fails) > 0 {
+				rc = 1
+			}
+		}
+		os.Exit(rc)
+	case "replay":
+		fl := flag.NewFlagSet("replay", flag.ExitOnError)
+		fl.String("prop", "", "property id")
+		fl.Parse(os.Args[2:])
+		for _, p := range fl.Args() {
+			b, err := os.ReadFile(p)
+			if err != nil {
+				fmt.Println(err)
+				os.Exit(2)
+			}
+			fmt.Println(string(b))
+		}
+		os.Exit(0)
 	default:
 		fmt.Fprintln(os.Stderr, "unknown command", os.Args[1])
 		os.Exit(2)
